@@ -9,7 +9,9 @@ Inductive case :=
 | CHandshake (proto : list N) (accepted : bool)
 (* the broker side writes [n] data frames of [size] bytes while its reading side answers PINGs: the client received
    [got] payload bytes in order, in frames that were whole ([whole]) *)
-| COut (n size got : nat) (whole : bool).
+| COut (n size got : nat) (whole : bool)
+(* [n] empty binary frames, then a CONNECT in one frame, sent to the whole server: it is answered *)
+| CEmpties (n : nat) (answered : bool).
 
 (* byte at stream position p *)
 Definition byte_at (p : nat) : N := N.of_nat (p mod 251).
@@ -58,6 +60,7 @@ Definition case_ok (c : case) : bool :=
       let '(ms, _, _) := ws_run [] (mk_frames 0 fs) sizes in all_match ms o
   | CHandshake p acc => Bool.eqb acc (existsb (list_eqb N.eqb p) mqtt_protos)
   | COut n size got whole => whole && Nat.eqb got (n * size)
+  | CEmpties _ answered => answered
   end.
 
 Fixpoint mismatches_from (i : nat) (cs : list case) : list nat :=
